@@ -7,13 +7,15 @@ D-b  '+' is always offered next to each observed cardinality (and exactly {1} fo
      property), for direct and inverse features alike (twin);
 D-c  selection among cardinalities: keep_less_specific picks the '+' member when present; the relax loop
      is total;
-D-d  with the mode off no cardinality is rewritten by the relaxation (tuning pipeline table).
+D-d  with the mode off no cardinality is rewritten by the relaxation (tuning pipeline table);
+D-e  no memo on the path from triples to statements has an incomplete key (values of different kinds are never
+     conflated because they share a lexical form).
 Undecided: conformance of every instance under ShEx semantics (needs a validator over all graphs)."""
 import ast
 from ..core import walk_own, norm
 from ..report import Ob, Floor
 from ..abseval import Evaluator, Sym, Opaque
-from ..rules import twin
+from ..rules import twin, memo
 from .. import exceptions
 
 ASS = "shexer.core.shexing.strategy.abstract_shexing_strategy:AbstractShexingStrategy."
@@ -134,8 +136,11 @@ def check(ctx, tier):
                 obs.append(Ob("D-d", "R-TABLE", "R-TABLE|tuning|all_compliant=%s,disable_exact=%s,cardinality=%r" % (ac, de, card), t.loc(), ok,
                               "tuning pipeline: cardinality %r -> %r" % (card, want) if ok else
                               "expected %r, code gives %r (%s)" % (want, st["cardinality"], outs)))
+    # ------------------------------------------------------------------ D-e
+    o_memo, n_memo = memo.check(ctx, "D-e")     # a memo with an incomplete key conflates values (e.g. equal text, other datatype)
+    obs += o_memo
     exceptions.apply(obs)
-    return {"obs": obs, "floors": [Floor("R-TABLE rows evaluated", rows, 20)],
+    return {"obs": obs, "floors": [Floor("R-TABLE rows evaluated", rows, 20), Floor("memo sites", n_memo, 3)],
             "explanation": "Decision tables of the relaxation (?, * and probability 1 with the original figures kept), of the offered "
                            "cardinalities ('+' next to every observed one, exactly 1 for the instantiation property, twins for inverse "
                            "features), of the selection among cardinalities and of the tuning pipeline (mode off => the relaxation "
